@@ -39,7 +39,9 @@ def _spec(draw, tier):
     return {"size": size, "dw": dw, "g": g, "writable": draw(st.sampled_from([True, True, False])),
             "init_mode": init_mode, "init_kind": init_kind, "init_edit": init_edit, "dseed": draw(st.integers(0, 1 << 30)), "cycles": draw(st.integers(20, 150)),
             "p_hold": draw(st.sampled_from([1, 2, 3])), "p_req": draw(st.sampled_from([2, 3, 3])),
-            "adr_span": draw(st.sampled_from([1, 2, 4, 0]))}
+            "adr_span": draw(st.sampled_from([1, 2, 4, 0])),
+            # the same init object was first offered to a constructor call that is refused (a refusal must not use it up)
+            "refused_first": draw(st.sampled_from([None, None, None, "geometry", "size", "width"]))}
 
 
 def strategy(tier):
@@ -61,6 +63,16 @@ def check(spec, stats):
     init_arg = {"list": lambda: list(init), "tuple": lambda: tuple(init), "generator": lambda: (v for v in init),
                 "iter": lambda: iter(init), "map": lambda: map(int, init)}[kind]()
     stats.label("init_one_shot_iterable", kind in ("generator", "iter", "map") and any(init))
+    rf = spec.get("refused_first")
+    if rf and legal:
+        bad = {"geometry": dict(size=1, data_width=64, granularity=8), "size": dict(size=3, data_width=dw, granularity=spec["g"]),
+               "width": dict(size=size, data_width=12, granularity=spec["g"])}[rf]
+        try:
+            WishboneSRAM(writable=spec["writable"], init=init_arg, **bad)
+        except (TypeError, ValueError):
+            stats.label("refused_call_first")
+        else:
+            raise Violation("C15/illegal-geometry-accepted", f"{bad}")
     try:
         dut = WishboneSRAM(size=size, data_width=dw, granularity=spec["g"], writable=spec["writable"], init=init_arg)
     except (TypeError, ValueError) as e:
